@@ -301,6 +301,39 @@ pub fn spaces(tier: Tier) -> Vec<Space> {
             }
         }));
     }
+    // (a4x) OP_2MUL / OP_2DIV: whether these two are executable is ambiguous (disabled before and after Genesis, re-enabled
+    // by later upgrades), so the reference does not prescribe one behaviour. It does prescribe that there are only two:
+    // the script fails at the opcode, or the top item x becomes 2x / x/2 (truncated toward zero), minimally encoded.
+    {
+        let mut xs: Vec<num_bigint::BigInt> = (-300i64..=300).map(num_bigint::BigInt::from).collect();
+        xs.extend(extreme_numbers(thorough));
+        let nx = xs.len() as u64;
+        v.push(Space::new("2mul-2div-either-prescription", 2 * nx, move |case, acc| {
+            let c = crate::engine::coords(case.idx, &[2, nx]);
+            let op = if c[0] == 0 { 0x8du8 } else { 0x8e };
+            let x = &xs[c[1] as usize];
+            let bytes = rs::serialize(&[super::icommon::push_tok(&ri::enc(x)), Tok::Op(op)]);
+            acc.evaluations += 1;
+            acc.transitions += 2;
+            acc.traces += 1;
+            acc.nontrivial_structural += 1;
+            let two = num_bigint::BigInt::from(2);
+            let want = if op == 0x8d { x * &two } else { x / &two }; // BigInt division truncates toward zero
+            let lib = super::icommon::lib_run(&bytes);
+            let input = json!({"op": opname(op), "x": x.to_string(), "script_hex": hex::encode(&bytes)});
+            match &lib.end {
+                super::icommon::LibEnd::Panic(p) => acc.violate(format!("C14/op={}/kind=panic", opname(op)), case.idx, case.json(input), p.clone()),
+                super::icommon::LibEnd::Err(_) => acc.outcome(b"2x-refused"),
+                _ => {
+                    let top = lib.final_stacks.0.last().cloned();
+                    acc.outcome(&[b'2', (top == Some(ri::enc(&want))) as u8]);
+                    if lib.final_stacks.0.len() != 1 || top != Some(ri::enc(&want)) {
+                        acc.violate(format!("C14/op={}/kind=wrong-result", opname(op)), case.idx, case.json(input), format!("library leaves {}; the only admissible outcomes are an error or the single item {}", show_stack(&lib.final_stacks.0), hex::encode(ri::enc(&want))));
+                    }
+                }
+            }
+        }));
+    }
     // (a4w) index operands of every encoding width, used where their value matters: OP_SPLIT of a 70 000-byte item (thorough:
     // also a 9 000 000-byte item) at positions on both sides of every byte boundary of the position's encoding and with a
     // single bit set in each byte, and OP_NUM2BIN of the number 1 to sizes with the same patterns up to 1 MiB. A 3-byte
